@@ -296,7 +296,16 @@ func (g *genCtx) document(depth int) Doc {
 		o = append(o, DMem{g.defsKey(), defs})
 	}
 	if g.draft7 {
-		o = append(DObj{{"$schema", DStr(pick(g.r, []string{"http://json-schema.org/draft-07/schema#", "https://json-schema.org/draft-07/schema#"}))}}, o...)
+		sv := pick(g.r, []string{"http://json-schema.org/draft-07/schema#", "https://json-schema.org/draft-07/schema#"})
+		if g.r.chance(1, 6) {
+			// a $schema value the package does not support: Validate must refuse, not fall back to another draft
+			sv = pick(g.r, []string{"http://json-schema.org/draft-07/schema", "https://json-schema.org/draft-07/schema", "http://json-schema.org/draft-04/schema#",
+				"http://json-schema.org/draft-06/schema#", "https://json-schema.org/draft/2019-09/schema", "https://json-schema.org/draft/2020-12/schema#",
+				"HTTP://json-schema.org/draft-07/schema#", "http://json-schema.org/draft-07/schema##", "#", "draft-07"})
+		}
+		o = append(DObj{{"$schema", DStr(sv)}}, o...)
+	} else if g.r.chance(1, 10) {
+		o = append(DObj{{"$schema", DStr("https://json-schema.org/draft/2020-12/schema")}}, o...)
 	}
 	return o
 }
